@@ -206,6 +206,15 @@ def step (st : St) (line : String) : St × Verdict :=
   match splitWs line with
   | "pupd" :: rest => (st, stepPupd rest)
   | "pcfg" :: _ => (st, .skip)
+  | "pinit" :: rest =>
+    -- a poller created over a store that already holds certificates stands at the store's next instance: what is
+    -- in the store before the subscriber starts is history, not progress (the first CatchUp feeds the predictor)
+    let kv := parseKV rest
+    match geti kv "next", geti kv "store" with
+    | some n, some s =>
+      if n == s then (st, .ok (if s == 0 then "pinit_empty" else "pinit_prefilled"))
+      else (st, .oracle s!"PROGRESS-NEQ-ADVANCE a new poller stands at NextInstance {n} over a store whose next instance is {s}: its first CatchUp reports {s - n} instances of progress although the store did not advance")
+    | _, _ => (st, .bad "parse pinit")
   | "poll" :: rest => (st, stepPoll (parseKV rest))
   | "catchup" :: rest => (st, stepCatchup (parseKV rest))
   | "rcfg" :: rest =>
